@@ -45,6 +45,12 @@ class FuncRef:
         self.mod, self.node, self.qual = mod, node, qual or node.name
 
 
+class ClassRef:
+    """a repository class used as a plain record: instantiating it without arguments gives its class-level constants"""
+    def __init__(self, mod, node):
+        self.mod, self.node = mod, node
+
+
 class TorchMarker:
     """torch.<something> that carries no value of interest (dtypes, devices)"""
     def __init__(self, name):
@@ -144,6 +150,10 @@ class NpSym:
             return self._glob_cache[key]
         if name in mod.functions:
             v = FuncRef(mod, mod.functions[name], name)
+            self._glob_cache[key] = v
+            return v
+        if name in mod.classes:
+            v = ClassRef(mod, mod.classes[name])
             self._glob_cache[key] = v
             return v
         # module-level assignment (last one wins)
@@ -786,6 +796,17 @@ class _Frame:
             if f.qual in I.stubs:
                 return I.stubs[f.qual](*args, **kwargs)
             return I._invoke(f, args, kwargs)
+        if isinstance(f, ClassRef):
+            if args or kwargs or any(isinstance(st, ast.FunctionDef) and st.name == "__init__" for st in f.node.body):
+                raise AnalysisError(f"npsym: construction of `{f.node.name}` with arguments / an __init__")
+            ns = types.SimpleNamespace()
+            fr2 = _Frame(I, f.mod, {})
+            for st in f.node.body:
+                if isinstance(st, ast.AnnAssign) and isinstance(st.target, ast.Name) and st.value is not None:
+                    setattr(ns, st.target.id, fr2.ev(st.value))
+                elif isinstance(st, ast.Assign) and len(st.targets) == 1 and isinstance(st.targets[0], ast.Name):
+                    setattr(ns, st.targets[0].id, fr2.ev(st.value))
+            return ns
         if isinstance(f, TorchMarker):
             return self.torch_call(f.name, args, kwargs, e)
         if isinstance(f, _BoundMethod):
@@ -914,6 +935,37 @@ class _Frame:
             return np.einsum(args[0], *[o.astype(object) for o in ops])
         if n in ("matmul", "bmm", "mm"):
             return np.matmul(args[0], args[1])
+        if n in ("linalg.cross", "cross"):
+            a, b = np.broadcast_arrays(I._obj(args[0]), I._obj(args[1]))
+            ax = self._axis(args, kwargs, 2)
+            ax = -1 if ax is None else ax
+            a, b = np.moveaxis(a, ax, -1), np.moveaxis(b, ax, -1)
+            out = np.empty(a.shape, dtype=object)
+            out[..., 0] = a[..., 1] * b[..., 2] - a[..., 2] * b[..., 1]
+            out[..., 1] = a[..., 2] * b[..., 0] - a[..., 0] * b[..., 2]
+            out[..., 2] = a[..., 0] * b[..., 1] - a[..., 1] * b[..., 0]
+            return np.moveaxis(out, -1, ax)
+        if n in ("linalg.pinv", "linalg.inv", "inverse", "pinverse"):
+            x = args[0]
+            out = np.empty(x.shape, dtype=object)
+            for idx in np.ndindex(*x.shape[:-2]):
+                M = sp.Matrix(x[idx].tolist())
+                if M.rank() == M.shape[0]:
+                    Mi = M.inv()
+                elif n.endswith("pinv") or n == "pinverse":
+                    Mi = M.pinv()
+                else:
+                    raise AnalysisError("npsym: inverse of a singular matrix")
+                out[idx] = np.array(Mi.tolist(), dtype=object)
+            return out
+        if n == "linalg.solve":
+            A, b = args[0], args[1]
+            out = np.empty(np.broadcast_shapes(A.shape[:-2], b.shape[:-2]) + b.shape[-2:], dtype=object) if b.ndim == A.ndim else None
+            if out is None:
+                raise AnalysisError("npsym: linalg.solve with a vector right-hand side")
+            for idx in np.ndindex(*A.shape[:-2]):
+                out[idx] = np.array((sp.Matrix(A[idx].tolist()).LUsolve(sp.Matrix(b[idx].tolist()))).tolist(), dtype=object)
+            return out
         if n == "is_tensor":
             return isinstance(args[0], np.ndarray)
         if n in ("clone", "detach"):
@@ -935,6 +987,8 @@ class _Frame:
             return bool(getattr(np, n)(x))
         if n in ("no_grad", "enable_grad", "set_grad_enabled"):
             return None
+        if n in ("mean", "max", "min", "amax", "amin") and args and isinstance(args[0], np.ndarray) and not (len(args) > 1 and isinstance(args[1], np.ndarray)):
+            return self.method_call(args[0], n, args[1:], kwargs, e)
         if n in ("maximum", "minimum", "max", "min", "clamp", "amax", "amin"):
             raise AnalysisError(f"npsym: torch.{n} on symbolic data")
         if n in ("unsqueeze", "squeeze", "reshape", "flatten", "repeat_interleave", "index_select", "gather", "outer", "flip", "roll", "cumsum"):
@@ -992,6 +1046,8 @@ class _Frame:
                 return obj
             if name == "unsqueeze":
                 return np.array([obj], dtype=object)
+        if isinstance(obj, (sp.Basic, int, float)) and not isinstance(obj, bool):
+            obj = np.array(obj if isinstance(obj, sp.Basic) else I.num(obj), dtype=object)      # a 0-dimensional tensor
         if not isinstance(obj, np.ndarray):
             raise AnalysisError(f"npsym: method `{name}` of {type(obj).__name__} in `{norm(e)[:60]}`")
         x = obj
@@ -1036,6 +1092,25 @@ class _Frame:
         if name == "sum":
             ax = self._axis(args, kwargs, 0)
             return I.osum(I._obj(x), axis=ax, keepdims=bool(kwargs.get("keepdim", False)))
+        if name == "mean":
+            ax = self._axis(args, kwargs, 0)
+            tot = I.osum(I._obj(x), axis=ax, keepdims=bool(kwargs.get("keepdim", False)))
+            cnt = x.size if ax is None else int(np.prod([x.shape[a] for a in (ax if isinstance(ax, tuple) else (ax,))]))
+            return tot / sp.Integer(cnt)
+        if name in ("max", "min", "amax", "amin") and not (args and isinstance(args[0], np.ndarray)):
+            ax = self._axis(args, kwargs, 0)
+            f_ = sp.Max if name in ("max", "amax") else sp.Min
+            if any(not sp.sympify(t).is_number for t in x.reshape(-1)):
+                raise AnalysisError(f"npsym: .{name}() of symbolic data")
+            if ax is None:
+                return f_(*[sp.sympify(t) for t in x.reshape(-1)])
+            moved = np.moveaxis(x, ax, -1)
+            out = np.empty(moved.shape[:-1], dtype=object)
+            for idx in np.ndindex(*out.shape):
+                out[idx] = f_(*[sp.sympify(t) for t in moved[idx]])
+            if name in ("max", "min"):
+                raise AnalysisError(f"npsym: .{name}(dim) returns (values, indices)")
+            return out
         if name in ("size",):
             return tuple(x.shape) if not args else x.shape[self._int(args[0])]
         if name in ("dim", "ndimension"):
